@@ -110,6 +110,7 @@ def decode_saved(text, fl):
     vm = header.get("$value_map", {})
     out = []
     keys_short = True
+    values_short = True
     for pp, payload in nodes:
         e = {"pp": pp, "ref": 0, "d": 0, "xid": 0, "k": 0, "bare": False}
         if isinstance(payload, bool):
@@ -125,8 +126,11 @@ def decode_saved(text, fl):
                 if k in km:  # a long key although the header declares a short one for it
                     keys_short = False
                 lk = inv.get(k, k)
-                if lk in vm and isinstance(v, int) and not isinstance(v, bool):
-                    v = vm[lk][v]
+                if lk in vm:
+                    if isinstance(v, int) and not isinstance(v, bool):
+                        v = vm[lk][v]
+                    else:  # the header declares a value map for this key, but the value is stored unshortened
+                        values_short = False
                 full[lk] = v
             if "str" in full:
                 e["d"] = fl.data_index(full["str"])
@@ -139,7 +143,7 @@ def decode_saved(text, fl):
             if "kind" in full:
                 e["k"] = flavours.KIND_IDS.get(full["kind"], -1)
         out.append(e)
-    return header, out, keys_short
+    return header, out, keys_short and values_short
 
 
 def header_facts(header, km_arg, vm_arg, fl, meta):
@@ -252,7 +256,8 @@ def obs_serial(c: Ctx, enc, *, props, quick=True, salt=0, tmpdir=None):
                 return res
             return walk(lst)
 
-        ser = ser_mapper if is_item else None
+        # serialize mapper style: mutate-and-return vs. returning a new dict (both documented)
+        ser = (ser_mapper if salt % 2 == 0 else (lambda node, data: ser_mapper(node, dict(data)))) if is_item else None
         deser = (lambda parent, item: Item(item["name"], item["rank"])) if is_item else None
         for via in ("plain", "json"):
             def get(via=via):
@@ -288,7 +293,7 @@ def obs_serial(c: Ctx, enc, *, props, quick=True, salt=0, tmpdir=None):
             vm_arg = value_map_for(fl, st, vm_mode)
             kw = {"key_map": km_arg, "value_map": vm_arg, "meta": dict(USER_META)}
             if not derived and mapper_needed:
-                kw["mapper"] = ser_mapper
+                kw["mapper"] = ser_mapper if salt % 2 else (lambda node, data: ser_mapper(node, dict(data)))
             load_kw = {}
             need_load_mapper = mapper_needed or any(st["did"][i] != fl.model_default_did(st["dat"][i]) for i in range(st["n"]))
             if not derived and need_load_mapper:
